@@ -68,6 +68,13 @@ theorem twoCfg_homogeneous : Homogeneous twoCfg := by
   simp only [List.mem_cons, List.not_mem_nil, or_false] at ho
   rcases ho with rfl | rfl <;> rfl
 
+/-- Late registration.  0 = Printable (ABC), 1 = Legacy, 2 = LegacyChild(Legacy), 3 = Page; one offer
+Printable→Page.  `late = false`: before `Printable.register(Legacy)`; `late = true`: after. -/
+def lateCfg (late : Bool) : Cfg :=
+  { provides := providesOf (if late then [(2, 1), (1, 0), (2, 0)] else [(2, 1)])
+    supers := fun t => if t == 2 then [1] else []
+    groups := [[⟨0, 0, 3, 0⟩]] }
+
 theorem specCfg_homogeneous : Homogeneous specCfg := by
   intro g hg o0 h0 o ho
   simp only [specCfg, List.mem_cons, List.not_mem_nil, or_false] at hg
